@@ -273,6 +273,8 @@ func genC07(r *Rng, tier string) *World {
 		}
 		if r.P(0.08) {
 			op.PanicAt = 1 + r.Intn(3)
+		} else if r.P(0.05) {
+			op.ErrAt = 99 // marker: the last context of this call is used once more after the call returned
 		}
 		ops = append(ops, op)
 	}
@@ -353,6 +355,17 @@ func runC07(x *X) *Violation {
 			}
 			if res.Panic == "injected" {
 				x.Probes["abort_in_history"]++
+			}
+			if op.ErrAt == 99 {
+				// a callback kept the context it was handed and reports through it after the call has returned (a goroutine
+				// that outlived the request): whatever that does, it must not reach a later call
+				if rec := x.recs[tag]; rec != nil && rec.LastCtx != nil {
+					func() {
+						defer func() { recover() }()
+						rec.LastCtx.AddIssue(&z.ZogIssue{Code: "late", Path: "late", Message: "reported after the call returned"})
+					}()
+					x.Faults["late_ctx_use"]++
+				}
 			}
 			if op.Collect != "" && res.Panic == "" {
 				x.Collect(tag, op.Collect, res)
